@@ -57,7 +57,8 @@ def hello_records(conn):
     """raw ClientHello / ServerHello records as sent (first handshake record of each direction's stream)"""
     out = []
     for d in (0, 1):
-        stream = b"".join(p for _, _, dd, _, p in conn.pkts if dd == d)
+        segs = sorted({conn.offset(k): p for k, (_, _, dd, _, p) in enumerate(conn.pkts) if dd == d}.items())
+        stream = b"".join(p for _, p in segs)
         if len(stream) >= 5 and stream[0] == 22:
             n = 5 + int.from_bytes(stream[3:5], "big")
             # the ServerHello record may group further handshake messages: it is still exported as that record
